@@ -146,6 +146,10 @@ func checkStages(c *fw.Ctx, rule string, fn *ssa.Function, fname string, stages 
 		}
 		construct := fname + ": stage " + st.name
 		if len(all) == 0 {
+			if od := fw.OpaqueDispatchAny(fn); od != "" {
+				c.Undecided(rule, construct, "the driver never calls "+st.callee+" directly, but it works through "+od+": the stage may run behind it")
+				continue
+			}
 			c.Fail(rule, construct, c.P.Pos(fn.Pos()), "the driver (and the unexported helpers it calls) never calls "+st.callee+": the stage is missing")
 			prev = nil
 			continue
@@ -322,8 +326,15 @@ func checkV2Drivers(c *fw.Ctx) {
 			c.Undecided(rule, construct, fmt.Sprintf("%d applyEvents, %d ordering and %d auth sites found (expected 2, 1, 2)", len(ap), len(r), len(au)))
 		} else {
 			okPos := !canRunBefore(r[0], ap[0]) && !canRunBefore(ap[1], au[1]) && stageCondsDeep(ap[0]) == "" && stageCondsDeep(ap[1]) == ""
+			if !okPos {
+				if od := fw.OpaqueDispatchAny(fn); od != "" {
+					c.Undecided(rule, construct, "the driver works through "+od+": the order and conditions of the steps behind it were not followed")
+					goto afterUnconflicted
+				}
+			}
 			c.Check(okPos, rule, construct, c.P.Pos(fn.Pos()), "", "the unconflicted state is not applied before the power ordering and after the last auth pass, unconditionally")
 		}
+	afterUnconflicted:
 	}
 }
 
@@ -597,8 +608,8 @@ func checkFallback(c *fw.Ctx) {
 						res = true
 					}
 				}
-				if fw.AtomCallsUnexportedHelper(atom) {
-					opaque = atom
+				if fw.AtomCallsUnexportedHelper(atom) || strings.Contains(atom, "dyn(") {
+					opaque = atom // a helper, or an accessor taken from a table of slots
 				}
 			}
 			return res
@@ -625,7 +636,7 @@ func checkFallback(c *fw.Ctx) {
 		switch {
 		case absent:
 			c.Ok(rule, construct, c.P.Pos(dc.Call.Pos()), "")
-		case !hasResolvedFields || opaque != "":
+		case !hasResolvedFields || opaque != "" || fw.OpaqueDispatchAny(dc.Call.(ssa.Instruction).Parent()) != "":
 			c.Undecided(rule, construct, "no test of the partial state was recognised before the insertion at "+c.P.Pos(dc.Call.Pos())+" (opaque condition: "+opaque+")")
 		default:
 			c.Fail(rule, construct, c.P.Pos(dc.Call.Pos()), "an auth event cited by the event itself is inserted without a test that the resolved partial state lacks that (type, state_key): AddEvent overwrites the partial-state entry, so the event is authorised against the state it cites instead of the state resolved so far")
